@@ -334,7 +334,14 @@ def run(case):
     for mode, (data, tt) in results.items():
         if mode is None:
             bump("lib_default_compiles")
-        post3 = "post" in tt and tt["post"].formatType == 3.0
+        # names are absent from the font only when 'post' is format 3 AND there is no CFF 1
+        # charset (CFF 1 fonts always have a format 3 'post': their names live in the charset)
+        post3 = "post" in tt and tt["post"].formatType == 3.0 and "CFF " not in tt
+        if post3 and mode is True and case["fmt"] == "ttf":
+            # an explicit useProductionNames argument decides alone: the lib's keepGlyphNames
+            # switch only applies when the caller leaves the decision to the lib
+            violations.append({"mech": "names_dropped_despite_explicit_argument", "detail": {
+                "mode": str(mode), "lib": {k: v for k, v in spec["lib"].items() if "lyph" in k or "roduction" in k}}})
         b_on = table_bytes(tt)
         bump("pairs_compared")
         if set(b_on) != set(b_off):
